@@ -15,6 +15,10 @@
 //   - dropped: a dropped record that has reached the filter answers dropped - also when the trace was
 //     recorded kept - until some filter generation has held as many entries as the dropped capacity
 //     configured when it was created ("filled to capacity since the record");
+//   - reload sequences (third family, reloadSequences): the cache is built with each of the four
+//     configurations keptCaps x dropCaps and up to three reloads to arbitrary configurations of that grid
+//     (the one in force, an earlier one, the start-up one) are interleaved with kept records and look-ups;
+//     the promised capacity is the one of the last reload;
 //   - filter false positives, add-queue overflow and cuckoo evictions (an insert that had to displace
 //     stored fingerprints: random victim choice inside the library) are detected and those branches are
 //     skipped and counted.
@@ -66,9 +70,18 @@ var fillerPool = func() []string {
 const fillN = 3
 
 type event struct {
-	Op string // recK | recD | span | trace | drain | maintain | fill | resizeK | resizeD | adv
-	T  int    // trace index
-	V  int    // kept variant
+	Op string // recK | recD | span | trace | drain | maintain | fill | resizeK | resizeD | adv | cfg
+	T  int    // trace index (cfg: index into keptCaps)
+	V  int    // kept variant (cfg: index into dropCaps)
+}
+
+// start is the configuration a history's cache is constructed with (indices into keptCaps / dropCaps).
+// trail = the family under exploration studies SEQUENCES of reloads: the canonical key then carries the
+// whole sequence of configurations applied so far, so that nothing is assumed about Resize being free of
+// memory (e.g. the real LRU capacity, which the cache does not expose, is a function of that sequence).
+type start struct {
+	k, d  int
+	trail bool
 }
 
 func tid(i int) string { return fmt.Sprintf("trace-%d", i+1) }
@@ -83,6 +96,8 @@ func (e event) String() string {
 		return "checkSpan(" + tid(e.T) + ")"
 	case "trace":
 		return "checkTrace(" + tid(e.T) + ")"
+	case "cfg":
+		return fmt.Sprintf("reload(KeptSize=%d,DroppedSize=%d)", keptCaps[e.T], dropCaps[e.V])
 	}
 	return e.Op
 }
@@ -182,6 +197,14 @@ var excluded sync.Map // history key -> reason
 
 func hkey(h []event) string { return fmt.Sprint(h) }
 
+// skey: histories of the families that start from another configuration live in their own key space
+func skey(st start, h []event) string {
+	if st == (start{}) {
+		return hkey(h)
+	}
+	return fmt.Sprint(st, h)
+}
+
 type subject struct {
 	c    cache.TraceSentCache
 	ctl  *cache.VerifC31
@@ -189,8 +212,8 @@ type subject struct {
 	nIDs int
 }
 
-func build() *subject {
-	cfg := config.SampleCacheConfig{KeptSize: keptCaps[0], DroppedSize: dropCaps[0], SizeCheckInterval: config.Duration(10000 * time.Hour), WorkerCount: 1}
+func build(st start) *subject {
+	cfg := config.SampleCacheConfig{KeptSize: keptCaps[st.k], DroppedSize: dropCaps[st.d], SizeCheckInterval: config.Duration(10000 * time.Hour), WorkerCount: 1}
 	c, err := cache.NewCuckooSentCache(cfg, &metrics.NullMetrics{})
 	if err != nil {
 		ev.Harness("NewCuckooSentCache: %v", err)
@@ -247,8 +270,12 @@ func preserved(before, after []byte) bool {
 // time; on a loaded machine that can leave part of the queue behind. That is a wall-clock artefact, not
 // a behaviour of interest, so such an execution is discarded and repeated (counted).
 func exec(r *ev.Run, nIDs int, h []event) (string, string, *seqx.Failure) {
+	return execFrom(r, start{}, nIDs, h)
+}
+
+func execFrom(r *ev.Run, st start, nIDs int, h []event) (string, string, *seqx.Failure) {
 	for try := 0; ; try++ {
-		c, o, f, again := exec1(r, nIDs, h)
+		c, o, f, again := exec1(r, st, nIDs, h)
 		if !again {
 			return c, o, f
 		}
@@ -263,9 +290,9 @@ func exec(r *ev.Run, nIDs int, h []event) (string, string, *seqx.Failure) {
 var dumpMu sync.Mutex
 var dumpF *os.File
 
-func exec1(r *ev.Run, nIDs int, h []event) (string, string, *seqx.Failure, bool) {
+func exec1(r *ev.Run, st start, nIDs int, h []event) (string, string, *seqx.Failure, bool) {
 	again := false
-	c, o, f := exec3(r, nIDs, h, &again)
+	c, o, f := exec3(r, st, nIDs, h, &again)
 	if dumpF != nil && !again {
 		dumpMu.Lock()
 		fmt.Fprintf(dumpF, "%v\t%s\t%s\n", h, o, c)
@@ -274,20 +301,22 @@ func exec1(r *ev.Run, nIDs int, h []event) (string, string, *seqx.Failure, bool)
 	return c, o, f, again
 }
 
-func exec3(r *ev.Run, nIDs int, h []event, again *bool) (string, string, *seqx.Failure) {
-	s := build()
+func exec3(r *ev.Run, st start, nIDs int, h []event, again *bool) (string, string, *seqx.Failure) {
+	s := build(st)
 	defer s.c.Stop()
-	m := &model{tr: make([]traceModel, nIDs), capOf: map[any]uint{}, filled: map[any]bool{}}
+	m := &model{k: st.k, d: st.d, tr: make([]traceModel, nIDs), capOf: map[any]uint{}, filled: map[any]bool{}}
+	var trail []string // configurations applied by Resize so far, in order
+	resizes := 0
 	for _, tb := range []bool{true, false} {
 		for _, db := range []bool{false, true} {
 			m.lrus = append(m.lrus, &lruModel{traceBumps: tb, droppedAnswerBumps: db})
 		}
 	}
 	snap0 := s.ctl.Snapshot()
-	m.capOf[snap0.Cur] = dropCaps[0]
+	m.capOf[snap0.Cur] = dropCaps[st.d]
 	outcome := "init"
 	exclude := func(kind string) (string, string, *seqx.Failure) {
-		excluded.Store(hkey(h), kind)
+		excluded.Store(skey(st, h), kind)
 		r.Add("excluded_"+kind, 1)
 		return "", "excluded:" + kind, nil
 	}
@@ -390,12 +419,19 @@ func exec3(r *ev.Run, nIDs int, h []event, again *bool) (string, string, *seqx.F
 				*again = true
 				return "", "", nil
 			}
-		case "resizeK", "resizeD":
-			if e.Op == "resizeK" {
+		case "resizeK", "resizeD", "cfg":
+			// resizeK / resizeD toggle one setting; cfg is a reload to an explicitly named configuration (possibly
+			// the one in force, possibly one that was in force earlier, possibly the one the cache was built with)
+			switch e.Op {
+			case "resizeK":
 				m.k = 1 - m.k
-			} else {
+			case "resizeD":
 				m.d = 1 - m.d
+			default:
+				m.k, m.d = e.T, e.V
 			}
+			resizes++
+			trail = append(trail, fmt.Sprintf("KeptSize=%d/DroppedSize=%d", keptCaps[m.k], dropCaps[m.d]))
 			cfg := config.SampleCacheConfig{KeptSize: keptCaps[m.k], DroppedSize: dropCaps[m.d], SizeCheckInterval: config.Duration(10000 * time.Hour), WorkerCount: 1}
 			if err := s.c.Resize(cfg); err != nil {
 				return "", "", &seqx.Failure{Sig: "resize:error", What: fmt.Sprintf("step %d %v: Resize failed: %v", step, e, err)}
@@ -543,7 +579,14 @@ func exec3(r *ev.Run, nIDs int, h []event, again *bool) (string, string, *seqx.F
 					return "", "", &seqx.Failure{Sig: "dropped:forgotten-before-the-filter-was-full:" + kind, What: where + " although its dropped record reached the filter and no filter generation has been filled to capacity since"}
 				}
 				if mustKept {
-					return "", "", &seqx.Failure{Sig: "kept:forgotten-within-capacity:" + kind, What: fmt.Sprintf("%s although it is among the %d most recently recorded/consulted kept decisions under every reading (kept LRU %v)", where, keptCaps[m.k], s.ctl.Kept())}
+					sig, hist := "kept:forgotten-within-capacity:", ""
+					if resizes > 0 {
+						// same clause of the oracle; the signature says that the capacity in force was set by a Resize
+						// ("a resize keeps the newest of them up to the new capacity")
+						sig = "kept:forgotten-within-the-capacity-set-by-a-resize:"
+						hist = fmt.Sprintf("; built with KeptSize %d, then resized to %v", keptCaps[st.k], trail)
+					}
+					return "", "", &seqx.Failure{Sig: sig + kind, What: fmt.Sprintf("%s although it is among the %d most recently recorded/consulted kept decisions under every reading (kept LRU %v)%s", where, keptCaps[m.k], s.ctl.Kept(), hist)}
 				}
 			}
 			// recency effect of the consultation, per reading
@@ -578,6 +621,9 @@ func exec3(r *ev.Run, nIDs int, h []event, again *bool) (string, string, *seqx.F
 	now := s.clk.Now()
 	var b bytes.Buffer
 	fmt.Fprintf(&b, "K%dD%d|kept=%s|next=%d|q=%s|", m.k, m.d, strings.Join(s.ctl.Kept(), ","), fin.NextCap, strings.Join(m.queue, ","))
+	if st.trail {
+		fmt.Fprintf(&b, "trail=%v|", trail)
+	}
 	for _, hd := range []any{fin.Cur, fin.Fut} {
 		if hd == nil {
 			b.WriteString("gen:-|")
@@ -643,6 +689,75 @@ func enabled(nIDs int, h []event) []event {
 	return out
 }
 
+// enabledReload is the menu of the reload-sequence family: kept records (IDs introduced in index order,
+// the second rate/reason variant for the first trace only), both look-ups for every recorded trace, and -
+// while fewer than maxReloads reloads have happened - a reload to EVERY configuration of the grid
+// keptCaps x dropCaps, i.e. also to the one in force (a reload that changes nothing for the cache, such
+// as a rules-only reload) and to any one that was in force earlier, including the start-up one.
+func enabledReload(nIDs, maxReloads int, h []event) []event {
+	used, reloads := 0, 0
+	for _, e := range h {
+		if e.Op == "recK" && e.T+1 > used {
+			used = e.T + 1
+		}
+		if e.Op == "cfg" {
+			reloads++
+		}
+	}
+	lim := used + 1
+	if lim > nIDs {
+		lim = nIDs
+	}
+	var out []event
+	for t := 0; t < lim; t++ {
+		out = append(out, event{Op: "recK", T: t})
+		if t == 0 {
+			out = append(out, event{Op: "recK", T: t, V: 1})
+		}
+	}
+	for t := 0; t < used; t++ {
+		out = append(out, event{Op: "trace", T: t}, event{Op: "span", T: t})
+	}
+	if reloads < maxReloads {
+		for k := range keptCaps {
+			for d := range dropCaps {
+				out = append(out, event{Op: "cfg", T: k, V: d})
+			}
+		}
+	}
+	return out
+}
+
+// reloadSequences: the resize clause quantified over SEQUENCES of reloads. The cache is built with every
+// configuration of the grid in turn (so the start-up capacity is the larger as well as the smaller one),
+// and up to maxReloads reloads to arbitrary grid configurations are interleaved with kept records and
+// look-ups. Same oracle as everywhere else in this check: the K most recently recorded/consulted kept
+// decisions (K = the capacity configured by the last reload, or at start-up if there was none) answer
+// kept with the recorded rate and reason. Nothing is demanded about what a cache that was larger earlier
+// may still remember.
+func reloadSequences(r *ev.Run) {
+	const nIDs, maxReloads = 4, 3
+	depth := ev.Pick(r, 7, 8)
+	if d := os.Getenv("VERIF_RELOAD_DEPTH"); d != "" {
+		fmt.Sscan(d, &depth)
+	}
+	for k0 := range keptCaps {
+		for d0 := range dropCaps {
+			st := start{k: k0, d: d0, trail: true}
+			seqx.Explore(r, seqx.Scenario[event]{
+				Name:     fmt.Sprintf("reload-sequences/start(KeptSize=%d,DroppedSize=%d)", keptCaps[k0], dropCaps[d0]),
+				Enabled:  func(h []event) []event { return enabledReload(nIDs, maxReloads, h) },
+				Exec:     func(h []event) (string, string, *seqx.Failure) { return execFrom(r, st, nIDs, h) },
+				Expand:   func(h []event) bool { _, ex := excluded.Load(skey(st, h)); return !ex },
+				MaxDepth: depth, Workers: 16,
+				NoMergeDepth: 2,
+			})
+		}
+	}
+	r.Set("bounds_reload_sequences", map[string]any{"start_configurations": "keptCaps x dropCaps (4)", "reload_targets": "keptCaps x dropCaps (4, including the configuration in force and the start-up one)",
+		"max_reloads_per_history": maxReloads, "trace_ids": nIDs, "depth": depth, "kept_variants": "both for trace-1, the first for the others", "events": "record kept, CheckTrace, CheckSpan, reload"})
+}
+
 func main() {
 	r := ev.New("C31", "model_checking")
 	if p := os.Getenv("VERIF_DUMP"); p != "" {
@@ -658,19 +773,29 @@ func main() {
 	nIDs := ev.Pick(r, 4, 6)
 	if hs := os.Getenv("VERIF_HISTORY"); hs != "" {
 		// debugging / replay aid: run one history, e.g. "fill;maintain;recD0;drain;resizeD;trace0"
+		// VERIF_START="k,d" (indices) replays a history of the reload-sequence family; there cfgKD is a reload to
+		// keptCaps[K], dropCaps[D], e.g. VERIF_START=1,0 VERIF_HISTORY="recK0;recK1;cfg00;cfg10;recK2;trace0"
 		var h []event
+		var st start
+		if ss := os.Getenv("VERIF_START"); ss != "" {
+			fmt.Sscanf(ss, "%d,%d", &st.k, &st.d)
+			st.trail = true
+		}
 		for _, w := range strings.Split(hs, ";") {
 			e := event{Op: strings.TrimRight(w, "0123456789")}
 			if n := strings.TrimPrefix(w, e.Op); n != "" {
 				fmt.Sscan(n, &e.T)
 			}
+			if e.Op == "cfg" {
+				e.T, e.V = e.T/10, e.T%10
+			}
 			h = append(h, e)
 		}
-		c, o, f := exec(r, nIDs, h)
-		_, ex := excluded.Load(hkey(h))
+		c, o, f := execFrom(r, st, nIDs, h)
+		_, ex := excluded.Load(skey(st, h))
 		fmt.Printf("history %v\n canon=%q\n outcome=%q\n failure=%+v excluded=%v\n", h, c, o, f, ex)
 		for i := 1; i <= len(h); i++ {
-			if why, ex := excluded.Load(hkey(h[:i])); ex {
+			if why, ex := excluded.Load(skey(st, h[:i])); ex {
 				fmt.Printf(" prefix %d excluded: %v\n", i, why)
 			}
 		}
@@ -683,7 +808,10 @@ func main() {
 	if d := os.Getenv("VERIF_IDS"); d != "" {
 		fmt.Sscan(d, &nIDs)
 	}
-	concurrentPart(r) // the (cheap) E3 part first: a deadline under load then cuts the deep end of the BFS, not this
+	concurrentPart(r)     // the (cheap) E3 part first: a deadline under load then cuts the deep end of the BFS, not this
+	tReload := time.Now() // reporting only (stderr), never part of a verdict
+	reloadSequences(r)    // small; before the two large searches so that neither the deadline nor the heap guard cuts it
+	fmt.Fprintf(os.Stderr, "C31: reload-sequence family took %v\n", time.Since(tReload).Round(time.Millisecond))
 	seqx.Explore(r, seqx.Scenario[event]{
 		Name:     "sentcache",
 		Enabled:  func(h []event) []event { return enabled(nIDs, h) },
@@ -727,6 +855,7 @@ func main() {
 	r.Assume("retention across rotation (mechanism anchor 'two-generation filter', why_tests_cant 'retention across filter rotation'): in addition to the weak reading below, a dropped record must still be answered 'dropped' while any generation that received it has never been filled to capacity; this holds on the unchanged tree because Maintain only ever discards the full current generation")
 	r.Assume("'filled to capacity since the record': some filter generation has, at or after the record, held at least as many entries as the DroppedSize configured when that generation was created; from then on either answer is accepted for every earlier record")
 	r.Assume("branches with a cuckoo filter false positive, an add-queue overflow, or an insert that displaced stored fingerprints (library picks victims with runtime.fastrand) are skipped and counted as excluded_*")
+	r.Assume("reload-sequence family: the per-worker kept capacity promised at any moment is the KeptSize of the last reload (of start-up if none), whatever was configured before; a reload to the configuration already in force or to an earlier one is a reload like any other. Its canonical state additionally contains the whole sequence of configurations applied, so histories with different reload sequences are never merged")
 	r.Assume("canonical state = capacities, real kept LRU (order, rate, reason), both filter bucket layouts with their creation capacity, next capacity, add-queue contents, recently-dropped entries as offsets from now (expired ones merged), per-trace model flags, the four model LRU orders; filler IDs are chosen as a function of that state")
 	pprof.StopCPUProfile()
 	r.Finish()
